@@ -279,6 +279,23 @@ impl State {
         r.map(|_| ())
     }
 
+    pub fn sys_link(&mut self, pid: Pid, from: &str, to: &str, rec: &mut OpRec) -> io::Result<()> {
+        rec.path = self.abs(pid, from);
+        rec.path2 = self.abs(pid, to);
+        if let Some(e) = self.inject(pid, OpKind::Link, rec) {
+            return Err(e);
+        }
+        let (h, cwd) = self.host_of(pid);
+        let now = self.now();
+        let r = self.fs(&h).link(&cwd, from, to, now);
+        note(rec, &r);
+        if let Ok(ino) = &r {
+            rec.ino = *ino;
+            rec.effect = true;
+        }
+        r.map(|_| ())
+    }
+
     pub fn sys_unlink(&mut self, pid: Pid, path: &str, rec: &mut OpRec) -> io::Result<()> {
         rec.path = self.abs(pid, path);
         if let Some(e) = self.inject(pid, OpKind::Unlink, rec) {
